@@ -48,3 +48,42 @@ Example C14_nonvacuous :
   parse_outcome true [] KS "out = xa >= 1; garbage )" = Rtamt /\
   parse_outcome true [] KS "out = once[0,k9] xa;" = Rtamt.
 Proof. repeat split; vm_compute; reflexivity. Qed.
+
+(* ---- the whole 'specification' rule: header, imports, declarations, annotations, assertions (model ParserDecl.v,
+   compared with parse() — outcome class, every table of the visitors, every AST — by the `file` stream of harness/c14.py) ---- *)
+From RV Require Import ParserDecl ParserDeclCorrect.
+
+(* everything parse_file accepts is derivable from the grammar of the whole rule and consumes exactly the token list *)
+Theorem C14_file_sound :
+  forall (stl : bool) (ts : list token) (f : file), parse_file stl ts = Some f -> FileDerives stl f ts.
+Proof. exact parse_file_sound. Qed.
+Print Assumptions C14_file_sound.
+
+(* on a text without header, imports and declarations it is the parser of the assertion part *)
+Theorem C14_file_refines :
+  forall (stl : bool) (ts : list token) (f : file),
+    parse_file stl ts = Some f -> f_name f = None -> f_imports f = [] -> f_items f = [] -> parse_spec stl ts = Some (f_asserts f).
+Proof. exact parse_file_refines_parse_spec. Qed.
+Print Assumptions C14_file_refines.
+
+(* the table of constants is exactly what the text declares, and every identifier used as an interval bound of an assertion is a declared constant *)
+Theorem C14_file_constants :
+  forall (orc : oracle) (du : kw) (f : file) (st : dstate),
+    elab_file orc du f = Ok st ->
+    (forall c v, assoc (d_consts st) c = Some v <-> declared_in (f_items f) c v) /\
+    (forall a c, In a (f_asserts f) -> In c (bound_ids (snd a)) -> In c (const_decls (f_items f))).
+Proof.
+  intros orc du f st H. split.
+  - exact (const_table_exact orc du f st H).
+  - exact (proj1 (assert_bounds_declared orc du f st H)).
+Qed.
+Print Assumptions C14_file_constants.
+
+(* with imported modules whose import, constructors and fields raise nothing but Exception (a benign oracle), parse() of any text
+   returns the tables or raises RTAMTException; without that assumption an exception can escape (escapes_without_benign) *)
+Theorem C14_file_clean :
+  forall (orc : oracle) (du : kw), orc_benign orc = true ->
+  forall (stl : bool) (text : string),
+    (exists st, file_outcome orc du stl text = Ok st) \/ file_outcome orc du stl text = Rtamt.
+Proof. exact file_outcome_classes. Qed.
+Print Assumptions C14_file_clean.
